@@ -7,6 +7,8 @@ let dispatch = function
   | "bc_wei" -> let a = next_mat next_z in p_opt p_vq (run_bc_wei a)
   | "ebc_bin" -> let a = next_mat next_z in p_opt (p_pair (p_mat p_q) p_vq) (run_ebc_bin a)
   | "ebc_wei" -> let a = next_mat next_z in p_opt (p_pair (p_mat p_q) p_vq) (run_ebc_wei a)
+  | "bc_weiq" -> let a = next_mat next_q in p_opt p_vq (run_bc_weiQ a)
+  | "ebc_weiq" -> let a = next_mat next_q in p_opt (p_pair (p_mat p_q) p_vq) (run_ebc_weiQ a)
   | "search" -> let w = next_bool () in let a = next_mat next_z in let u = next_nat () in
       p_opt p_search (run_search w a u)
   | "spec" -> let a = next_mat next_z in
